@@ -127,6 +127,11 @@ def _neg(a: str, b: str) -> bool:
 def r2_partition(ctx):
     tr = ctx.func(PARSING, "to_reaction")
     a = PARSING + ":to_reaction"
+    pmc = [c for c in calls_in(tr) if call_name(c) == "_parse_multiplicity"]
+    for c in pmc:
+        sk = c.args[1] if len(c.args) > 1 else kwarg(c, "substance_keys")
+        ctx.check(sk is not None and U(sk) == "substance_keys", a, "keys-validated:" + U(c.args[0])[:40] if c.args else "keys-validated",
+                  "every term list (active and inactive) must be parsed against the given substance_keys; found `%s`" % U(c)[:120], node=c)
     fl = _filters(tr)
     if len(fl) != 2:
         raise AnalysisError("to_reaction: expected two filtered _parse_multiplicity calls, found %d" % len(fl))
@@ -482,7 +487,7 @@ def r8_arms(ctx):
 
 RULES = [
     Rule("C12-R1", r1_tokens, 10, "writer/reader token agreement (arrows, term/field/coefficient/line separators)"),
-    Rule("C12-R2", r2_partition, 6, "term classification is a partition; sides reach the constructor in written order"),
+    Rule("C12-R2", r2_partition, 8, "term classification is a partition; sides reach the constructor in written order"),
     Rule("C12-R3", r3_allowed_keys, 10, "allowed-key check covers every key on every path; duplicates accumulate; key list forwarded"),
     Rule("C12-R4", r4_attrs, 16, "_all_attr/_cmp_attr vs constructor, __eq__, __hash__, copy"),
     Rule("C12-R5", r5_name_field, 1, "third printed field parses back"),
@@ -514,6 +519,8 @@ MUTANTS = [
 ]
 
 MUTANTS.append(Mutant("inactive-predicate-balanced-only", [(PARSING, "            if depth == 0:\n                return idx == len(term) - 1\n    return False", "            if depth < 0:\n                return False\n    return depth == 0")], "C12-R7", "leading-bracket"))
+
+MUTANTS.append(Mutant("inactive-keys-not-validated", [(PARSING, "                [x[1:-1] for x in elements if _is_inactive_term(x)],\n                substance_keys,\n", "                [x[1:-1] for x in elements if _is_inactive_term(x)],\n")], "C12-R2", "keys-validated"))
 
 TWINS = [
     Twin("param-sep-no-space", [(PRN, 'Reaction_param_separator="; ",', 'Reaction_param_separator=";",')]),
